@@ -66,6 +66,8 @@ def build(members, *, data_align=4096, data_gap=0, trailing_blocks=2, extra_tail
         if m["inline"] and m["size"]:
             out += m["data"] + bytes((-m["size"]) % 512)
     out += bytes(512 * trailing_blocks)
+    if cur > (1 << 28):
+        return bytes(out), offs  # data area too far away to materialise: the caller places the data (sparse virtual file)
     for m in ext:
         out += bytes(offs[id(m)] - len(out))
         out += m["data"]
